@@ -185,13 +185,11 @@ class MDpadding(blockiterator):
     def remove(self,c):
         clen = self.wsize//4
         counter,_ = unpack(c[-clen:])
-        c = list(c[:-clen])
-        while Bits(c[-1]).ival==0:
-            c.pop()
+        c = c[:-clen].rstrip(b'\0')
         if len(c)==0: raise PaddingError("failed to remove padding")
-        b = Bits(c.pop())
+        b = Bits(c[-1:])
         b.size=str(b).rfind('1')
-        return b''.join(c)+b.bytes()
+        return c[:-1]+b.bytes()
 
 #------------------------------------------------------------------------------
 class SHApadding(blockiterator):
@@ -217,13 +215,11 @@ class SHApadding(blockiterator):
     def remove(self,c):
         clen = self.wsize//4
         counter,_ = unpack(c[-clen:],bigend=True)
-        c = list(c[:-clen])
-        while Bits(c[-1]).ival==0:
-            c.pop()
+        c = c[:-clen].rstrip(b'\0')
         if len(c)==0: raise PaddingError("failed to remove padding")
-        b = Bits(c.pop())
+        b = Bits(c[-1:])
         b.size=str(b).rfind('1')
-        return b''.join(c)+b.bytes()
+        return c[:-1]+b.bytes()
 
 #------------------------------------------------------------------------------
 class Blakepadding(blockiterator):
@@ -252,17 +248,15 @@ class Blakepadding(blockiterator):
     def remove(self,c):
         clen = self.wsize//4
         counter,_ = unpack(c[-clen:],bigend=True)
-        c = list(c[:-clen])
-        b = Bits(c.pop())
+        c = c[:-clen]
+        b = Bits(c[-1:])
         if self.hsize in (256,512):
             assert b[7]==1
             b[7]=0
-        if b.ival!=0: c.append(b.bytes())
-        while Bits(c[-1:]).ival==0:
-            c.pop()
+        c = (c[:-1]+b.bytes()).rstrip(b'\0')
         if len(c)==0: raise PaddingError("failed to remove padding")
-        b = Bits(c.pop())
+        b = Bits(c[-1:])
         b.size=str(b).rfind('1')
-        return b''.join(c)+b.bytes()
+        return c[:-1]+b.bytes()
 
 #------------------------------------------------------------------------------
